@@ -1,6 +1,6 @@
 #!/usr/bin/env python3
 """Summarise /verif/seeded/*/meta.json as a markdown table (and normalise the meta files)."""
-import glob, json, os, re
+import glob, json, os, re, sys
 rows = []
 for d in sorted(glob.glob('/verif/seeded/*/')):
     mp = os.path.join(d, 'meta.json')
@@ -24,7 +24,14 @@ for d in sorted(glob.glob('/verif/seeded/*/')):
             keys += [f"{c}:{k}" for k in r.get('keys', [])[:2]]
     rows.append((m['property'], m['name'], 'yes' if (m.get('confirmed') or {}).get('suite_unchanged') else '?',
                  ', '.join(m.get('caught_by') or []) or '**missed**', ('first missed' if (first == [] and m.get('caught_by')) else ''), '; '.join(keys)[:110]))
-print('| written for | mutant | suite unchanged | caught by | note | violation keys |')
-print('|---|---|---|---|---|---|')
-for r in rows:
-    print('| ' + ' | '.join(r) + ' |')
+lines = ['| written for | mutant | suite unchanged | caught by | note | violation keys |', '|---|---|---|---|---|---|']
+lines += ['| ' + ' | '.join(r) + ' |' for r in rows]
+print('\n'.join(lines))
+print(f"\n{len(rows)} changes; {sum(1 for r in rows if r[4])} first missed; {sum(1 for r in rows if 'missed**' in r[3])} still missed", file=sys.stderr)
+if '--update-design' in sys.argv:
+    p = '/verif/DESIGN.md'
+    s = open(p).read()
+    a = s.index('<!-- seeded-table:begin')
+    a = s.index('\n', a) + 1
+    b = s.index('<!-- seeded-table:end -->')
+    open(p, 'w').write(s[:a] + '\n'.join(lines) + '\n' + s[b:])
